@@ -187,8 +187,10 @@ def each_deconstruct(chk, F, rule, cfg):
         if r.valuation.get('empty') == frozenset({1}):
             chk.ob(rule, 'empty stub => Err, zero sink calls', r.outcome.startswith('Err') and r.outcome.endswith('sink=0'), config=cfg, fn=fn, site='empty', what='empty stub outcome', found=r.outcome)
     L.loops_run_to_completion(chk, rule, fn, cfg, paths, fail_outcome=lambda p: not E.ret_label(p).startswith('Ok'))
+    n_elem = 0
     for p in paths:
         pushes = list(p.calls(r'clause::term::Sink::push$'))
+        n_elem += len(pushes)
         for e in pushes:
             el = strip(e.data[2][2])
             ok = el[0] == 'field' and el[2] == '0' and strip(el[1])[0] == 'as' and strip(el[1])[2] == 'Some' and L.is_iter_next(('discr', strip(strip(el[1])[1])))
@@ -199,7 +201,9 @@ def each_deconstruct(chk, F, rule, cfg):
                    found=names or show(el)[:200], expected='for builder in self.patterns.into_iter() { sink.push(F::info(), builder)? }')
         if E.ret_label(p).startswith('Ok') and pushes:
             chk.ob(rule, 'a successful run pushed every element (loop ran to exhaustion)', True, config=cfg, fn=fn, site='complete')
-    sinks = [symex.callee_name(t) for _, t in fn.calls() if 'Sink' in symex.callee_unresolved(t)]
+    chk.floor(rule, 'stub patterns seen being handed to the sink (on the explored paths)', n_elem, 1, config=cfg)
+    bodies = [fn] + [g for g in F.fns.values() if g.kind == 'closure' and getattr(g, 'root', None) == fn.defp]      # (closure literals written in this function are part of it)
+    sinks = [symex.callee_name(t) for b_ in bodies for _, t in b_.calls() if 'Sink' in symex.callee_unresolved(t)]
     chk.ob(rule, 'stub patterns reach the assembler through Sink::push, one by one', bool(sinks) and all(n.endswith('Sink::push') for n in sinks), config=cfg, fn=fn, site='sink-route', unrecognised=True,
            what='stub patterns registered via %s' % sorted(set(sinks)), found=sorted(set(sinks)), expected=['clause::term::Sink::push'])
 
